@@ -140,6 +140,13 @@ func init() {
 			return []Val{{Typ: x.eng.lookupType("google.golang.org/protobuf/reflect/protoreflect", "EnumNumber"), C: []Term{n}}}
 		},
 
+		"(models.SessionDiscoveryService).ServerID": func(x *Exec, st *State, a []Val, s ssa.Instruction) []Val {
+			x.assumeNote("A-serverid: SessionDiscoveryService.ServerID() is a pure function of the service value")
+			r := x.uf("serverid", []Sort{SInt}, SInt, a[0].T())
+			st.assume(Ge(r, TZero))
+			return []Val{{Typ: types.Typ[types.String], C: []Term{r}}}
+		},
+
 		// ---- misc ----
 		"(github.com/google/uuid.UUID).String": func(x *Exec, st *State, a []Val, s ssa.Instruction) []Val {
 			return []Val{st.symbolic(types.Typ[types.String], "uuidstr")}
